@@ -279,6 +279,26 @@ def cfgHistory (mc : List Char) (d : Dict Entry) (names : List Str) :
     Dict Entry × List (Except Err Entry) :=
   names.foldl (fun acc n => let s := cfgStep mc acc.1 n; (s.1, acc.2 ++ [s.2])) (d, [])
 
+/-- the same steps made DEPENDENT on the generated store lists: if the lookup path stored anything that outlives the
+    call (`writes ≠ []`), the object afterwards is unknown (`havoc`, an arbitrary function) -/
+def cfgStepW (writes : List String) (havoc : Dict Entry → Str → Dict Entry) (mc : List Char) (d : Dict Entry)
+    (name : Str) : Dict Entry × Except Err Entry :=
+  (if writes.isEmpty then d else havoc d name, lookup mc d name)
+
+def cfgHistoryW (writes : List String) (havoc : Dict Entry → Str → Dict Entry) (mc : List Char) (d : Dict Entry)
+    (names : List Str) : Dict Entry × List (Except Err Entry) :=
+  names.foldl (fun acc n => let s := cfgStepW writes havoc mc acc.1 n; (s.1, acc.2 ++ [s.2])) (d, [])
+
+def khStepW (writes : List String) (havoc : Dict (Str × Str) → Str → Dict (Str × Str))
+    (hm : Str → Str → Str → Option Bool) (d : Dict (Str × Str)) (name : Str) :
+    Dict (Str × Str) × Except Err (Option (Str × Str)) :=
+  (if writes.isEmpty then d else havoc d name, khLookup hm d name)
+
+def khHistoryW (writes : List String) (havoc : Dict (Str × Str) → Str → Dict (Str × Str))
+    (hm : Str → Str → Str → Option Bool) (d : Dict (Str × Str)) (names : List Str) :
+    Dict (Str × Str) × List (Except Err (Option (Str × Str))) :=
+  names.foldl (fun acc n => let s := khStepW writes havoc hm acc.1 n; (s.1, acc.2 ++ [s.2])) (d, [])
+
 /-- `ssh_config_factory(path)` (ssh_config.py:526-533): `cache` = `SSHConfig._config_files`,
     `parsed` = what the file at `path` parses to at the time of the call -/
 def factory (mc : List Char) (cache : Dict (Dict Entry)) (path : Str) (parsed : List Entry) :
